@@ -385,7 +385,11 @@ METERS_PER_DEEGREE = 111319.4907932736
 def meter_per_unit(srs):
     if srs.is_latlong:
         return METERS_PER_DEEGREE
-    return 1
+    try:
+        # projected CRS in feet, US survey feet, ...
+        return srs.proj.axis_info[0].unit_conversion_factor
+    except (AttributeError, IndexError):
+        return 1
 
 
 class TileMatrixSet(object):
